@@ -224,7 +224,9 @@ class CellCycleController:
         released = lock.release(owner=ctx.operation_id)
 
         if released:
-            del ctx.acquired_resources[resource_id]
+            # A re-entrant hold may remain: forget the resource only once it is really free
+            if lock.owner != ctx.operation_id:
+                del ctx.acquired_resources[resource_id]
             if lock.owner is None:
                 self.dependency_graph.retarget_resource(resource_id, None)
 
